@@ -38,6 +38,8 @@ def i64ToU64 (x : UInt64) : UInt64 := x
 def u64ToI64 (x : UInt64) : UInt64 := x
 /-- `int → unsigned long long` -/
 def i32ToU64 (x : UInt32) : UInt64 := u64OfInt (s32 x)
+/-- `int → uint8_t` (modular) -/
+def i32ToU8 (x : UInt32) : UInt8 := UInt8.ofNat (x.toNat % 256)
 /-- `uint8_t → bool` (IntegralToBoolean) -/
 def u8ToBool (x : UInt8) : Bool := x != 0
 
@@ -109,6 +111,20 @@ def whilePushFuel {α} (n : Nat) (e : Res α) : Nat → List α → Res (List α
   | fuel + 1, v => if v.length < n then e.bind fun x => whilePushFuel n e fuel (v ++ [x]) else .ok v
 
 def whilePush {α} (n : Nat) (e : Res α) (v : List α) : Res (List α) := whilePushFuel n e (n - v.length) v
+
+/-- `for (it = begin(xs); it != end(xs); ++it) { …s… }` with one local `s` carried through the iterations -/
+def forFold {σ α} (f : σ → α → Res σ) : σ → List α → Res σ
+  | s, [] => .ok s
+  | s, x :: r => (f s x).bind fun s' => forFold f s' r
+
+/-- `v.back()` (libstdc++ asserts `!empty()`) -/
+def back {α} (v : List α) : Res α :=
+  match v.getLast? with
+  | none => .ub .oob_index
+  | some x => .ok x
+
+/-- a write through the reference `v.back()` returned -/
+def setBack {α} (v : List α) (x : α) : List α := v.dropLast ++ [x]
 
 /-! ### structures the conversions build that `Format/V2.lean` keeps as pairs -/
 /-- `loops_blob` (the vector and the trailing `extra_data`) -/
